@@ -19,11 +19,60 @@ theorem C10_total_decodeTypeNumeric (bs : Bytes) : ∃ r, decodeTypeNumeric bs =
   decodeTypeNumeric_total bs
 
 /-- `ParseJSONB` returns for every byte string — whatever the counts, flags, lengths and end offsets in
-it, at any nesting: no panic (this needs fix 07: a HAS_OFF end offset below the entry's start gave a
-negative length and `data[off:off+length]` panicked), and the model's recursion budget is never
+it, at any nesting (the count is no longer capped at 10 000, fix 10): no panic (this needs fix 07: a
+HAS_OFF end offset below the entry's start gave a negative length and `data[off:off+length]` panicked;
+with fix 10 the slices `entries[count:]`, `ends[count:]` and the index `ends[count-1]` are further possible
+faults, none reachable), and the model's recursion budget is never
 exhausted: the fuel `len(data)+1` handed out by `parseJSONB` is provably enough, because every child
 slice starts after the 8 bytes of header and first JEntry. -/
 theorem C10_total_parseJSONB (bs : Bytes) : ∃ r, parseJSONB bs = .ok r := parseJSONB_total bs
+
+/-- Work bound, part 1 (fix 10: the count is bounded by the input, not by a constant): a container whose
+header announces more children than the input can hold JEntry words for — `4 + count·4 > len(data)` —
+is refused (nil) before any entry is read or anything is allocated.  So the entry array, the `ends`
+array and the result slice / map are bounded by the length of the input, whatever the 28-bit count
+field says (up to 2^28−1). -/
+theorem C10_count_bounded (rec : Bytes → M JV) (data : Bytes) (h4 : 4 ≤ data.length)
+    (hc : 0 < rd 4 data &&& 0x0FFFFFFF) (hbig : data.length < 4 + (rd 4 data &&& 0x0FFFFFFF) * 4) :
+    parseContainer rec data = .ok .nil := by
+  unfold parseContainer
+  have hl : ¬ data.length < 4 := by omega
+  simp (disch := omega) only [hl, if_false, uN_ok, ok_bind, pure_eq_ok, List.drop_zero]
+  generalize rd 4 data = header at hc hbig ⊢
+  generalize header &&& 0x0FFFFFFF = count at hc hbig ⊢
+  by_cases hbad : ((!header &&& 0x20000000 != 0 && !header &&& 0x40000000 != 0)) = true
+  · rw [if_pos hbad]
+  · rw [if_neg hbad]
+    have hc0 : (count == 0) = false := by simp; omega
+    rw [hc0]
+    simp only [Bool.false_eq_true, if_false]
+    by_cases hobj : (header &&& 0x20000000 != 0) = true
+    · simp only [hobj, if_true]
+      rw [if_pos (by omega)]
+    · simp only [hobj, Bool.false_eq_true, if_false]
+      rw [if_pos (by omega)]
+
+/-- Work bound, part 2 (fix 10: linear offsets; fix 08: monotone end offsets): for EVERY entry array the
+single forward pass accepts, the spans handed to `decodeJEntry` have non-negative lengths and tile the
+data area without overlap — entry `idx+1` starts exactly where entry `idx` ends.  Hence the children
+of one container are disjoint slices of its data area, the inputs of all recursive calls of one nesting
+level together are no longer than the input of that level, and the total work is bounded by the input
+size times the nesting depth (k children can no longer alias the same bytes: A35). -/
+theorem C10_children_disjoint (es ends : List Nat) (h : endsFrom 0 es = some ends) (idx : Nat) (hidx : idx < es.length) :
+    0 ≤ (spanAt ends idx).2 ∧ (spanAt ends (idx+1)).1 = (spanAt ends idx).1 + (spanAt ends idx).2.toNat :=
+  spanAt_tiling es ends h idx hidx
+
+/-- non-vacuity: three entries (length 3, HAS_OFF end offset 7, length 2) — spans (0,3), (3,4), (7,2) -/
+example : (endsFrom 0 [3, 0x80000007, 2]).map (fun ends => [spanAt ends 0, spanAt ends 1, spanAt ends 2]) =
+    some [(0, 3), (3, 4), (7, 2)] := by rfl
+
+/-- Fix 10 changes no offset: for EVERY entry array the forward pass accepts — hostile ones included, any
+placement of HAS_OFF flags, any length — the (start, length) handed to `decodeJEntry` for entry `idx` is
+exactly what `entryOffLen` (backward scan to the nearest HAS_OFF entry, then forward sum: quadratic on
+entry arrays without HAS_OFF, the reason for the former cap of 10 000) returned. -/
+theorem C10_offsets_unchanged (es ends : List Nat) (h : endsFrom 0 es = some ends) (idx : Nat) (hidx : idx < es.length) :
+    entryOffLen es idx 0 = .ok ((spanAt ends idx).1, (spanAt ends idx).2) := by
+  rw [entryOffLen_ok es idx 0 hidx, spanAt_eq_entryOffLen es ends h idx hidx]
 
 /-- The result of `ParseJSONB` does not depend on surplus fuel: any fuel above the input length gives
 the value `parseJSONB` gives.  (So the fuel is a device of the model, not a behaviour.) -/
